@@ -6,6 +6,7 @@ from .. import core
 TABLE = {
     "T1": ("t1_scalar", "ScalarTable.lean"),
     "T2": ("t2_fold", "FoldOps.lean"),
+    "T6": ("t6_schema", "AstSchema.lean"),
 }
 
 
